@@ -1005,6 +1005,38 @@ def check_C06(tier, seed):
             dseen.add((cls, txt))
             cases.append((cls, var, txt, -1))
             per_class[cls] = per_class.get(cls, 0) + 1
+    # systematic family for damage class 06 ([200] s-l+flow-in-block(n): every continuation line of a flow collection that
+    # is an entry / value of a block collection at indentation n needs at least n+1 spaces): block context x node
+    # properties in front of the bracket x what stands inside before the line break x continuation column 0..n x what the
+    # continuation line starts with.  The variant string is the one of op06, so the recorded class (continuation exactly AT
+    # the indentation, not starting with a plain scalar, behind a plain scalar) is recognised and everything else must be
+    # rejected — in particular the shapes without a plain scalar in front (seeded change C06-6).
+    fam = 0
+    for head, n in (("- ", 0), ("k: ", 0), ("k:\n  - ", 2), ("- - ", 2), ("- k: ", 2), ("a:\n  b: ", 2), ("- - - ", 4)):
+        for pr in ("", "&a ", "!t ", "&a !t "):
+            for op, cl in (("[", "]"), ("{", "}")):
+                for first in ("", "'x',", "\"x\",", "x,", "[y],", "&b 'y',", "x: 'y',"):
+                    if op == "{" and first in ("x,", "[y],"):
+                        continue
+                    for x in range(0, n + 1):
+                        for cont in (cl, "'z'" + cl, "\"z\"" + cl, "[z]" + cl, "z" + cl, "&c 'z'" + cl):
+                            if op == "{" and cont[:1] in ("'", "\"", "[", "z", "&") and not first:
+                                body = cont
+                            else:
+                                body = cont
+                            if op == "{" and cont != cl:
+                                body = "q: " + cont if cont[:1] != "z" else "z: 1" + cl
+                            txt = head + pr + op + first + "\n" + " " * x + body + "\n"
+                            plain_start = body[:1] not in "'\"[]{}&*!,?"
+                            var = "continuation-%s-block-indentation/%s-start/%s" % (
+                                "at" if x == n else "left-of", "plain" if plain_start else "non-plain",
+                                "plain-scalar-before" if has_plain_scalar(op + first) else "no-plain-scalar-before")
+                            if ("06-flow-indent", txt) not in dseen:
+                                dseen.add(("06-flow-indent", txt))
+                                cases.append(("06-flow-indent", var, txt, -1))
+                                fam += 1
+    res.coverage["flow_continuation_family"] = fam
+    per_class["06-flow-indent"] = per_class.get("06-flow-indent", 0) + fam
     res.coverage["damaged_per_class"] = dict(sorted(per_class.items()))
     res.coverage["damaged_per_variant"] = dict(sorted(per_variant.items()))
     dl = [enc(c[2]) for c in cases]
